@@ -120,6 +120,8 @@ fn shapes(tier: Tier) -> Vec<(String, Vec<Vec<Call>>)> {
         // a thread that loads the same key again while another thread's load of it is still in flight
         ("same-key-twice-vs-once".into(), vec![vec![(5, 10), (5, 10)], vec![(5, 10)]]),
         ("same-key-twice-vs-twice-other-type".into(), vec![vec![(5, 10), (5, 1)], vec![(5, 1), (5, 10)]]),
+        // a typed load that fails (object 6 is a stream, not a resource dictionary): cached error and its re-evaluation path
+        ("same-key-failing-load".into(), vec![vec![(6, 10)], vec![(6, 10), (6, 8)]]),
     ];
     if tier == Tier::Thorough {
         v.push(("three-threads-mixed".into(), vec![vec![(0, 12), (5, 10)], vec![(2, 12), (6, 8)], vec![(5, 1), (1, 12)]]));
